@@ -275,10 +275,11 @@ def mulVec (A : Mat α) (x : Nat → α) : Nat → α := fun i => sumList ((List
 def toLists (A : Mat α) : List (List α) := (List.range A.m).map (fun i => (List.range A.n).map (A.e i))
 end Mat
 
-/-- `patch_to_global(p)` (`j_global=False`): COO entries `(I[k], k, 1.0)`, duplicates summed by `tocsr()`;
-column `k` has its single entry in row `I[k] = globalIdx p k`. -/
+/-- `patch_to_global(p)` (`j_global=False`): `I = self.patch_to_global_idx(p)`, COO entries `(I[k], k, 1.0)`,
+duplicates summed by `tocsr()`; column `k` has its single entry in row `I[k]`. -/
 def Glob.patchToGlobal {α : Type} [Zero α] [One α] (G : Glob) (p : Nat) : Mat α :=
-  ⟨G.numdofs, G.N p, fun g j => if j < G.N p ∧ G.globalIdx p j = g then 1 else 0⟩
+  let I := (List.range (G.N p)).map (G.globalIdx p)
+  ⟨G.numdofs, G.N p, fun g j => if I[j]? = some g then 1 else 0⟩
 
 /-- `assemble_system` accumulation over patches `0..P-1` given the patch matrices / vectors:
 ```
